@@ -33,7 +33,7 @@ HIERARCHICAL = ("lagrange", "bspline")
 BOUND = ("families Trapezoidal, Simpson, ClenshawCurtis, Leja (boundary on and off), GaussLegendre (no flag), Lagrange p in 1..4 and "
          "BSpline p in {1,3} (boundary on: all clauses; boundary off: only B.total/B.count/B.inside on a few d=1 boxes, every such call "
          "raises on the unchanged tree); d in {1,2,3}; 3 domains [a,b] (unit, [-1,3]^d, anisotropic negative/non-unit); levels 0..4 per "
-         "dimension (d=1: all; d=2: all 25 level vectors in quick with rotating boxes, x all boxes in thorough; d=3: levels<=2 "
+         "dimension (d=1: all [quick, Leja: each (interval, level) on one of the domains]; d=2: all 25 level vectors in quick with rotating boxes, x all boxes in thorough; d=3: levels<=2 "
          "(hierarchical) or <=3, seeded sample); sub-boxes = per dimension one interval of the dyadic family "
          "[a+i*L/2^j, a+(i+1)*L/2^j], j<=2 (7 intervals: whole, halves, quarters; touching both / one / no end of [a,b]; touching ends "
          "are exactly a or b); plus, trapezoidal boundary off only, the variant whose end is one ulp below b (count clause only). "
@@ -317,12 +317,15 @@ def history_checks(ctx, case, res, F, grid, grid2, pts_copy, w_copy, exps, exact
                   "%d cached points; e.g. point %s" % (len(keys), worst))
     # ---- same grid asked twice; earlier hand-outs unchanged
     st = {}
+    if family == "leja" and sum(levelvec) > 3:
+        st["skip"] = True                        # Leja points are recomputed by a numerical optimisation at every setCurrentArea (70 ms each)
     with ctx.guard("B.total", SITE_INT[hier], tag + "-second-query-raises"):
         with quiet():
-            grid.setCurrentArea(list(start), list(end), list(levelvec))
-            pts_b, w_b = grid.get_points_and_weights()
-            st["I2"] = np.asarray(grid2.integrate(F, list(levelvec), list(start), list(end)), dtype=float).ravel()
-            st["pts"], st["w"] = [tuple(float(x) for x in q) for q in pts_b], np.asarray(w_b, dtype=float).ravel()
+            if not st.get("skip"):
+                grid.setCurrentArea(list(start), list(end), list(levelvec))
+                pts_b, w_b = grid.get_points_and_weights()
+                st["I2"] = np.asarray(grid2.integrate(F, list(levelvec), list(start), list(end)), dtype=float).ravel()
+                st["pts"], st["w"] = [tuple(float(x) for x in q) for q in pts_b], np.asarray(w_b, dtype=float).ravel()
     if "I2" in st:
         problems = []
         if st["pts"] != pts_copy or not np.array_equal(st["w"], w_copy):
@@ -425,8 +428,10 @@ def run(ctx):
     # ---- d = 1: exhaustive over domains x intervals x levels
     for (f, p, bn) in main:
         for dom in range(len(DOMAINS)):
-            for iv in INTERVALS:
+            for ni, iv in enumerate(INTERVALS):
                 for l in range(5):
+                    if quick and f == "leja" and (ni + l) % len(DOMAINS) != dom:
+                        continue        # Leja points come from a numerical optimisation at every setCurrentArea: quick visits each (interval, level) on one domain
                     do_case(ctx, build_case(f, p, bn, dom, 1, [l], [iv]))
     # hierarchical families with boundary off: a few boxes only (B.total / B.count / B.inside)
     for (f, p, bn) in probe:
@@ -449,7 +454,7 @@ def run(ctx):
             if ctx.out_of_time(0.6):
                 ctx.exhaustive = False
                 break
-            reps = 2 if quick else 6
+            reps = (1 if f == "leja" else 2) if quick else 6
             for r in range(reps):
                 k += 1
                 ivs = iv2[(k * 11) % len(iv2)]
@@ -459,7 +464,7 @@ def run(ctx):
     n3 = 6 if quick else 60
     for (f, p, bn) in main:
         lmax = 2 if f in HIERARCHICAL else 3
-        for r in range(n3):
+        for r in range(n3 if not (quick and f == "leja") else 3):
             if ctx.out_of_time(0.9):
                 ctx.exhaustive = False
                 break
